@@ -46,7 +46,7 @@ Theorem C03_no_deadlock :
   forall c progs sh0 sched,
     let s := conc_run tb c progs sh0 sched in
     (exists t, t_cur (m_thr s t) <> None \/ t_todo (m_thr s t) <> []) ->
-    exists t, step sem (compile_l tb c) (reentrant tb) t s <> None.
+    exists t, step sem ssem (compile_l tb c) (reentrant tb) t s <> None.
 Proof. exact no_deadlock_model. Qed.
 Print Assumptions C03_no_deadlock.
 
@@ -65,7 +65,7 @@ Print Assumptions C03_unlocked_refuted.
 Theorem C03_plain_lock_refuted :
   let tb := tb_plain_lock gen_table in
   let s := conc_run tb cfg1 progs_setdefault shared_init (repeat 0 200) in
-  t_done (m_thr s 0) = [] /\ step sem (compile_l tb cfg1) (reentrant tb) 0 s = None.
+  t_done (m_thr s 0) = [] /\ step sem ssem (compile_l tb cfg1) (reentrant tb) 0 s = None.
 Proof. vm_compute. split; reflexivity. Qed.
 Print Assumptions C03_plain_lock_refuted.
 
@@ -185,6 +185,24 @@ Proof.
   split; [apply stands_for_init|]. vm_compute. repeat split; reflexivity.
 Qed.
 
+(* ---- the statistics counters are NOT covered (and the property does not name them) -----------
+   LRI.get() increments soft_miss_count outside the lock (modelled as such: a read and a write of
+   the statistics component after the Release).  Two threads, one c.get(missing, d) each; thread 0 is
+   pre-empted between the load and the store of its `+= 1`: both misses are counted in miss_count
+   (incremented inside the lock) but soft_miss_count ends at 1.  The cache contents and the values
+   returned are unaffected -- C03_serialisable speaks of those only. *)
+Definition cnt_progs : nat -> list op :=
+  fun t => match t with 0 => [Get 7 70] | 1 => [Get 8 80] | _ => [] end.
+Definition cnt_sched : list nat := repeat 0 8 ++ repeat 1 40 ++ repeat 0 40.
+
+Theorem C03_soft_miss_counter_lost_update :
+  let s := conc_run gen_table (mkConfig LRI 2 None) cnt_progs shared_init cnt_sched in
+  t_done (m_thr s 0) = [RVal 70] /\ t_done (m_thr s 1) = [RVal 80] /\
+  t_todo (m_thr s 0) = [] /\ t_todo (m_thr s 1) = [] /\
+  n_miss (m_st s) = 2 /\ n_soft (m_st s) = 1.
+Proof. vm_compute. repeat split; reflexivity. Qed.
+Print Assumptions C03_soft_miss_counter_lost_update.
+
 (* the hypotheses are inhabited by a non-trivial run: LRU(max_size=2) holding 0,1; thread 0
    reads key 0 then inserts key 2, thread 1 deletes key 1 then copies; thread 0 is pre-empted
    in the middle of its ring splice, thread 1 then has to wait for the lock *)
@@ -197,7 +215,7 @@ Definition ex_progs : nat -> list op :=
 Definition ex_cfg : config := mkConfig LRU 2 None.
 Definition ex_sh0 : shared := run_ops gen_table ex_cfg shared_init [SetItem 0 10; SetItem 1 11].
 Definition ex_sched : list nat :=
-  repeat 0 7 ++ repeat 1 5 ++ repeat 0 12 ++ repeat 1 25 ++ repeat 0 60 ++ repeat 1 60 ++ repeat 0 60.
+  repeat 0 7 ++ repeat 1 5 ++ repeat 0 15 ++ repeat 1 25 ++ repeat 0 60 ++ repeat 1 60 ++ repeat 0 60.
 
 Example C03_example_run :
   let s := conc_run gen_table ex_cfg ex_progs ex_sh0 ex_sched in
